@@ -2,6 +2,7 @@
 // canonical schedule of vsched (default choice at every point: deterministic, so the verdict is a
 // function of the input only; scheduling properties are C03/C04/C14's business).
 #pragma once
+#include <sys/stat.h>
 #include "cry.h"
 #include "ref.hpp"
 #include "vfc.hpp"
@@ -17,6 +18,10 @@ inline void fatal_exit(int code) { _exit(code == VS_DEADLOCK ? VS_EXIT_DEADLOCK 
 // inside the cipher-stream code (those translation units are then built with -finstrument-functions): every worker is interleaved with
 // every other one at the finest granularity the scheduler has - state that leaks between the per-worker streams changes the result
 static int g_sched_policy = 0, g_streampoints = 0;
+// the size argument of execute_*: documented as the file size, used for the progress display; the command line passes 0 when the size
+// cannot be determined (FIFO, /dev/stdin). 0 = exact, 1 = zero ("unknown"), 2 = too large. No result may depend on it.
+static int g_size_hint = 0;
+inline size_t hinted(size_t n) { return g_size_hint == 1 ? 0 : g_size_hint == 2 ? 3 * n + 1000 : n; }
 inline void canon_begin() {
   vs_policy = g_sched_policy;
   vs_nprefix = 0;
@@ -47,8 +52,9 @@ struct OpResult {
 // input files: one memfd per distinct content, kept for the life of the process, so that the same file (same inode, same size,
 // same mtime) is presented again whenever the same bytes are - as when a user verifies a file and then decrypts it. A process-wide
 // cache inside wencry keyed on file identity only shows with such reuse. The entry is dropped if an operation changed its input.
+inline std::map<std::string, int> &input_cache() { static std::map<std::string, int> cache; return cache; }
 inline int input_fd_for(const Bytes &d) {
-  static std::map<std::string, int> cache;
+  std::map<std::string, int> &cache = input_cache();
   std::string k((const char *)d.data(), d.size());
   auto it = cache.find(k);
   if (it != cache.end()) {
@@ -60,6 +66,27 @@ inline int input_fd_for(const Bytes &d) {
   int fd = vfc::memfd_with(d);
   cache[k] = fd;
   return fd;
+}
+// The file that was last presented with content `old` is altered IN PLACE to `neu` (same inode, same size; the modification time is
+// put back, as `touch -r`, an archiver or anybody who tampers with a file would): the next operation given `neu` sees the very file
+// an earlier operation of this process saw with other bytes. No-op if `old` was never presented or the sizes differ.
+inline bool alter_in_place(const Bytes &old, const Bytes &neu) {
+  std::map<std::string, int> &cache = input_cache();
+  if (old.size() != neu.size() || old == neu) return false;
+  auto it = cache.find(std::string((const char *)old.data(), old.size()));
+  if (it == cache.end()) return false;
+  int fd = it->second;
+  struct stat st;
+  if (fstat(fd, &st) != 0) return false;
+  if (pwrite(fd, neu.data(), neu.size(), 0) != (ssize_t)neu.size()) return false;
+  struct timespec ts[2] = {st.st_atim, st.st_mtim};
+  futimens(fd, ts);
+  cache.erase(it);
+  std::string nk((const char *)neu.data(), neu.size());
+  auto jt = cache.find(nk);
+  if (jt != cache.end()) { close(jt->second); cache.erase(jt); }
+  cache[nk] = fd;
+  return true;
 }
 inline Bytes cstr_seed(const std::string &s) { Bytes b(s.begin(), s.end()); b.push_back(0); if (b.size() < 256) b.resize(256, 0); return b; }
 
@@ -75,7 +102,7 @@ inline OpResult wc_encrypt(const Bytes &P, const unsigned char *key16, int cmode
     Settings st((char)cmode, (char)hmode, true);
     runcrypt rc(fi, fout, key, st, (u8_t)T);
     canon_begin();
-    r.ret = rc.execute_encrypt(P.size(), sb.data());
+    r.ret = rc.execute_encrypt(hinted(P.size()), sb.data());
     canon_end();
   }
   r.out = vfc::slurp_fd(ofd);
@@ -96,7 +123,7 @@ inline OpResult wc_decrypt(const Bytes &F, const unsigned char *key16, int T) {
     Settings st((char)-1, (char)-1, true);
     runcrypt rc(fi, fout, key, st, (u8_t)T);
     canon_begin();
-    r.ret = rc.execute_decrypt(F.size());
+    r.ret = rc.execute_decrypt(hinted(F.size()));
     canon_end();
   }
   r.out = vfc::slurp_fd(ofd);
@@ -116,7 +143,7 @@ inline OpResult wc_verify(const Bytes &F, const unsigned char *key16, int T, boo
     Settings st((char)-1, (char)-1, true);
     runcrypt rc(fi, fout, key, st, (u8_t)T);
     canon_begin();
-    r.ret = rc.execute_verify(F.size());
+    r.ret = rc.execute_verify(hinted(F.size()));
     canon_end();
   }
   r.out = vfc::slurp_fd(ofd);
@@ -146,7 +173,7 @@ static const unsigned char KEYS[4][16] = {
     {0},
     {0xff, 0xff, 0xff, 0xff, 0xff, 0xff, 0xff, 0xff, 0xff, 0xff, 0xff, 0xff, 0xff, 0xff, 0xff, 0xff},
     {0x2b, 0x7e, 0x15, 0x16, 0x28, 0xae, 0xd2, 0xa6, 0xab, 0xf7, 0x15, 0x88, 0x09, 0xcf, 0x4f, 0x3c}};
-static const int NSEEDS = 7;
+static const int NSEEDS = 11;
 inline std::string seed_of(int kind) {
   switch (kind) {
   case 0: return "seed";
@@ -155,6 +182,11 @@ inline std::string seed_of(int kind) {
   case 3: return "a";
   case 4: return std::string(255, 'x');
   case 5: return std::string(300, 'z') + "tail";
+  // seeds chosen for the structure of their SHA-1 chain: a digest is binary, any byte value can occur at any position of a link
+  case 7: return "seed176"; // SHA-1(seed) begins with 0x00
+  case 8: return "seed212"; // the same (two of them: seed dependence of the later fields is compared between neighbours)
+  case 9: return "seed82";  // the second link of the chain begins with 0x00
+  case 10: return "seed126"; // the same
   default: return "another seed \x01\x02\xff";
   }
 }
